@@ -211,7 +211,8 @@ CONNECT = [("blocking", "insim::builder::Builder::connect_blocking", r"blocking_
            ("tokio", "insim::builder::Builder::connect_async::{closure#0}#promoted", r"tokio_impl::framed::Framed")]
 
 
-def connect(ctx, rep):
+def connect(ctx, rep, flag_only=False):
+    """flag_only: emit only the version-flag forwarding instances, as rule R9.4 (used by C09)"""
     from props import net
     proto = ctx.mir.enums.get("insim::builder::Proto")
     if proto is None:
@@ -244,6 +245,18 @@ def connect(ctx, rep):
             ws = [(bb, tt) for bb, tt in b.calls_to(framed + r"::write$") if bb in only]
             vv = [(bb, tt) for bb, tt in b.calls_to(framed + r"::verify_version$") if bb in only]
             isi = [(bb, tt) for bb, tt in b.calls_to(r"builder::Builder::isi$") if bb in only]
+            if flag_only:
+                okf = len(news) == 1 and len(vv) == 1 and b.dominates(news[0][0], vv[0][0])
+                why = "found %d Framed::new and %d verify_version calls" % (len(news), len(vv))
+                if okf:
+                    vo = b.origin(vv[0][1]["args"][1])
+                    sv = strip_refs(vo)
+                    okf = sv[0] == "field" and sv[3] == "verify_version"
+                    why = "argument is %s" % _full(vo)
+                rep.check("R9.4", key + ":flag-forwarded", okf,
+                          "%s %s branch: the connection must be given the builder's verify_version flag unchanged, once, after Framed::new (%s)" % (impl, pn, why),
+                          b.loc(), sample={"impl": impl, "proto": pn})
+                continue
             ok = len(news) == 1 and len(hs) == 1 and not ws and len(vv) == 1 and len(isi) == 1
             rep.check("R18.4", key + ":shape", ok, "%s %s branch: expected one Framed::new, one verify_version, one isi(), one handshake and no other write (found %s)" % (impl, pn, [len(news), len(vv), len(isi), len(hs), len(ws)]),
                       b.loc(), sample={"impl": impl, "proto": pn, "counts": [len(news), len(vv), len(isi), len(hs), len(ws)]})
@@ -253,12 +266,15 @@ def connect(ctx, rep):
             okc = co[0] == "call" and co[1].endswith("Codec::new") and "mode" in origin_fields(co) and any(c[1].endswith("Clone::clone") for c in origin_calls(co))
             rep.check("R18.4", key + ":mode", okc, "the connection must use Codec::new(self.mode.clone()); found %s" % _full(co), b.loc(news[0][1]["line"]))
             vo = b.origin(vv[0][1]["args"][1])
-            rep.check("R18.4", key + ":verify-flag", "verify_version" in origin_fields(vo), "the builder's verify_version must be forwarded (found %s)" % _full(vo), b.loc(vv[0][1]["line"]))
+            rep.check("R18.4", key + ":verify-flag", strip_refs(vo)[0] == "field" and strip_refs(vo)[3] == "verify_version", "the builder's verify_version must be forwarded (found %s)" % _full(vo), b.loc(vv[0][1]["line"]))
             ho = b.origin(hs[0][1]["args"][1])
             okh = any(c[4] == isi[0][0] for c in origin_calls(ho)) or (ho[0] == "phi")
             rep.check("R18.4", key + ":handshake-isi", okh and b.dominates(news[0][0], hs[0][0]), "handshake must send Builder::isi()'s packet after Framed::new (found %s)" % _full(ho), b.loc(hs[0][1]["line"]))
             tr = net.try_of(b, hs[0][0], impl == "tokio")
             rep.check("R18.4", key + ":handshake-error", tr is not None and "residual" in b.ret_kinds(tr[3]), "a failed handshake must be returned as an error", b.loc(hs[0][1]["line"]), nontrivial=False)
+    if flag_only:
+        rep.floor("R9.4", 2 * len(net.impls_present(ctx)))
+        return
     rep.floor("R18.4", 2)
 
 
